@@ -1537,6 +1537,10 @@ class FunctionNode(AstNode):
         # XXX - waring about unused fields in attrs
 
         fmt_func = self.fmtdict
+        if not isinstance(ast.name, str):
+            raise RuntimeError(
+                "Function must have a name: '{}' at line {}".format(
+                    decl, self.linenumber))
         fmt_func.function_name = ast.name
         fmt_func.underscore_name = util.un_camel(fmt_func.function_name)
 
